@@ -141,6 +141,7 @@ class Interp:
         self.depth = 0
         self.refine = {}  # Lin shape -> (lo, hi) for the non-constant part
         self.mods = {}
+        self.divs = {}
         self.events = []  # (kind, name, args, node) for opaque / observed calls
         self.on_call = on_call
         self.attr_hook = attr_hook
@@ -178,6 +179,17 @@ class Interp:
             while hi in ex and hi >= lo:
                 hi -= 1
         return (lo, hi)
+
+    def excludes(self, lin, value):
+        """True if a recorded disequality rules out lin == value on this path."""
+        lin = self.resolve(Lin.of(lin))
+        lo, hi = self.lin_interval(lin)
+        if value < lo or value > hi:
+            return True
+        if not lin.terms:
+            return lin.const != value
+        sh, sign = lin.canon()
+        return (sign * (value - lin.const)) in self.excluded.get(sh, ())
 
     def norm_str(self, v):
         if not self.unfolded or not isinstance(v, AbsStr):
@@ -287,6 +299,24 @@ class Interp:
             rng = (0, m - 1) if m > 0 else (m + 1, 0)
             self.mods[key] = Sym("mod(%s,%d)" % (lin, m), rng[0], rng[1], meta=("mod", lin, m))
         return Lin({self.mods[key]: 1}, 0)
+
+    def floordiv_lin(self, lin, m):
+        lo, hi = self.lin_interval(lin)
+        if lo > -INF and hi < INF and lo // m == hi // m:
+            return Lin({}, int(lo // m))
+        key = (lin.key(), m)
+        if key in self.divs:
+            return Lin({self.divs[key]: 1}, 0)
+        r = self.mod_lin(lin, m)  # remainder symbol (or folded form)
+        q = Sym("(%s)//%d" % (lin, m), meta=("div", lin, m))
+        self.divs[key] = q
+        if len(r.terms) == 1 and r.const == 0:
+            rs = next(iter(r.terms))
+            if rs.meta and rs.meta[0] == "mod":
+                # lin == m*q + r  =>  r := lin - m*q, with 0 <= r < m
+                self.subst[rs] = lin - Lin({q: m}, 0)
+                self._refine(lin - Lin({q: m}, 0), lo=0, hi=m - 1)
+        return Lin({q: 1}, 0)
 
     # ------------------------------------------------------------------ truth
     def truth(self, v, node=None):
@@ -478,8 +508,8 @@ class Interp:
                     return _norm_lin(la.scale(lb.const))
             if op is ast.Mod and lb.is_const() and isinstance(lb.const, int) and lb.const != 0:
                 return _norm_lin(self.mod_lin(la, lb.const))
-            if op is ast.FloorDiv and lb.is_const() and lb.const:
-                return Opaque("floordiv", [a, b])
+            if op is ast.FloorDiv and lb.is_const() and isinstance(lb.const, int) and lb.const > 0:
+                return _norm_lin(self.floordiv_lin(la, lb.const))
             return Opaque("arith", [a, b])
         # strings
         sa, sb = _as_absstr(a), _as_absstr(b)
@@ -511,6 +541,14 @@ class Interp:
                     return r
         if isinstance(a, (set, frozenset)) and isinstance(b, (set, frozenset)) and op in _PYCMP:
             return _PYCMP[op](a, b)
+        if op in _DUNDER and isinstance(a, AObj) and a.cls is not None \
+                and self.repo.find_method(a.cls, _DUNDER[op]) is not None:
+            r = self.call_method(a, _DUNDER[op], [b], {}, node)
+            return self.truth(r, node)
+        if op in _DUNDER and isinstance(b, AObj) and b.cls is not None and not isinstance(a, AObj) \
+                and self.repo.find_method(b.cls, _DUNDER[_REFLECT[op]]) is not None:
+            r = self.call_method(b, _DUNDER[_REFLECT[op]], [a], {}, node)
+            return self.truth(r, node)
         a, b = simplify_str(a), simplify_str(b)
         if op in (ast.Is, ast.IsNot):
             if a is None or b is None:
@@ -897,6 +935,8 @@ class Interp:
             if v.cls is not None:
                 m = self.repo.find_method(v.cls, name)
                 if m is not None:
+                    if any(norm(d) == "property" for d in m.node.decorator_list):
+                        return self.call_method(v, name, [], {}, node)
                     return ABound(v, name)
                 for c in self.repo.mro(v.cls):
                     if name in c.attrs:
@@ -913,6 +953,8 @@ class Interp:
                     return self.eval(c.attrs[name], Frame(None, {}, mod=c.module))
         if isinstance(v, ABuiltin) and v.name.startswith("ext:"):
             return ABuiltin(v.name + "." + name)
+        if isinstance(v, ABuiltin) and v.name == "str" and name in ("lower", "upper"):
+            return ABuiltin("str." + name)
         if isinstance(v, Opaque):
             return Opaque("attr:%s" % name, [v])
         return ABound(v, name)
@@ -1099,6 +1141,27 @@ class Interp:
             E = recv.excluded
             if all(c.upper() in E and c.lower() in E for c in E):
                 return recv
+        if name == "split" and len(args) == 1 and isinstance(args[0], str) and len(args[0]) == 1:
+            sep = args[0]
+            recv2 = self.norm_str(recv if isinstance(recv, AbsStr) else AbsStr([recv]))
+            parts, cur = [], []
+            for a in recv2.atoms:
+                if isinstance(a, str):
+                    segs = a.split(sep)
+                    cur.append(segs[0])
+                    for sg in segs[1:]:
+                        parts.append(cur)
+                        cur = [sg]
+                    continue
+                if isinstance(a, Ch) and a.contains_only([sep]) is not False:
+                    raise CannotDecide("split(%r) over %r" % (sep, a))
+                if isinstance(a, Run) and any(c.contains_only([sep]) is not False for c in a.classes):
+                    raise CannotDecide("split(%r) over %r" % (sep, a))
+                if _is_rep(a) and sep in a.lit:
+                    raise CannotDecide("split(%r) over %r" % (sep, a))
+                cur.append(a)
+            parts.append(cur)
+            return [simplify_str(AbsStr(p_)) if not AbsStr(p_).is_concrete() else AbsStr(p_).concrete() for p_ in parts]
         if name in ("islower", "isupper") and isinstance(recv, AbsStr):
             u = self.norm_str(recv).units()
             defs = [x for x in u if isinstance(x, str)]
@@ -1150,6 +1213,10 @@ class Interp:
                     out.append(getattr(a, name)())
                 elif isinstance(a, Ch):
                     out.append(self.str_method(a, name, args, node))
+                elif isinstance(a, Run) and all(c.members is not None and all(getattr(m_, name)() == m_ for m_ in c.members) for c in a.classes):
+                    out.append(a)
+                elif _is_rep(a) and getattr(a.lit, name)() == a.lit:
+                    out.append(a)
                 else:
                     raise CannotDecide("string method %s on %r" % (name, recv))
             return simplify_str(AbsStr(out))
@@ -1246,6 +1313,18 @@ class Interp:
                 raise RaiseEx(type(e).__name__, node)
         if name == "int" and isinstance(args[0], Lin):
             return args[0]
+        if name in ("int", "len", "str", "repr", "float") and args and isinstance(args[0], AObj) and args[0].cls is not None:
+            dn = {"int": "__int__", "len": "__len__", "str": "__str__", "repr": "__repr__", "float": "__float__"}[name]
+            if self.repo.find_method(args[0].cls, dn) is not None:
+                return self.call_method(args[0], dn, [], {}, node)
+        if name == "log" and args and all(isinstance(a, (int, float)) for a in args):
+            import math
+            try:
+                return math.log(*args)
+            except (ValueError, ZeroDivisionError) as e:
+                raise RaiseEx(type(e).__name__, node)
+        if name in ("str.lower", "str.upper") and args:
+            return self.call_method(args[0], name.split(".")[1], list(args[1:]), {}, node)
         if name == "abs" and isinstance(args[0], Lin):
             lo, hi = self.lin_interval(args[0])
             if lo >= 0:
@@ -1264,6 +1343,18 @@ class Interp:
             return [base[i % len(base)] for i in range(args[1], args[2])]
         if name == "islice" and isinstance(args[0], (list, tuple)) and all(isinstance(a, int) for a in args[1:]):
             return list(args[0])[slice(*args[1:])]
+        if name == "hasattr" and len(args) == 2 and isinstance(args[1], str):
+            o = args[0]
+            if isinstance(o, AObj):
+                if args[1] in o.attrs:
+                    return True
+                if o.cls is not None:
+                    return any(args[1] in c.methods or args[1] in c.attrs for c in self.repo.mro(o.cls))
+                return self.fork("hasattr: %s" % short(node))
+            if isinstance(o, (str, int, float, list, tuple, dict, Lin, AbsStr, Ch)) or o is None:
+                v0 = {Lin: 0, AbsStr: "", Ch: ""}.get(type(o), o)
+                return hasattr(v0, args[1])
+            return self.fork("hasattr: %s" % short(node))
         if name == "hasattr":
             return self.fork("hasattr: %s" % short(node))
         if name in _exc_names():
@@ -1513,6 +1604,8 @@ class Interp:
         absloops.while_loop(self, st, frame)
 
 
+_DUNDER = {ast.Lt: "__lt__", ast.LtE: "__le__", ast.Gt: "__gt__", ast.GtE: "__ge__", ast.Eq: "__eq__", ast.NotEq: "__ne__"}
+_REFLECT = {ast.Lt: ast.Gt, ast.LtE: ast.GtE, ast.Gt: ast.Lt, ast.GtE: ast.LtE, ast.Eq: ast.Eq, ast.NotEq: ast.NotEq}
 _OPNAME = {ast.Lt: "<", ast.LtE: "<=", ast.Gt: ">", ast.GtE: ">=", ast.Eq: "==", ast.NotEq: "!=",
            ast.In: "in", ast.NotIn: "not in", ast.Is: "is", ast.IsNot: "is not"}
 
